@@ -14,9 +14,12 @@
 //          ra  (`pool.run(async<int>)` -> future)                  aw  (coroutine doing `co_await pool(future)`, future resolved by the client)
 //   prims (what the unit of work does when it runs): s = pool.stop()   f = nested pool.run(fn)   d = nested run_detached
 //          D = delete the pool      x = the closure's destructor deletes the pool (det only; after the job ran)
+//          r = when the job is cancelled, its handler / destructor / watcher calls back into the pool (is_stopped())
+//          w<n> = block until event n has been signalled (a job waiting for another job)      e<n> = signal event n
 //
 // Output: the shim's op lines (`s <tid> unlock mx`, `cv-block cv`, `join[-block] t<i>`, `fin`) interleaved with the events
 //   submit j<k> <kind> t<tid> exit=<0|1>      run j<k> t<tid> cur=<0|1>      cancel j<k> t<tid>      value j<k> t<tid>
+//   flag-set f<n> t<tid>      (a blocking wait is the op line `s <tid> flag-block f<n>`)
 //   stop-begin t<tid> / stop-end t<tid> / destroy-begin t<tid> / destroyed t<tid>
 // and a final summary (`quiescent` first when the run ended with blocked threads).
 #include "shim/verif_shim.h"
@@ -70,6 +73,7 @@ struct Scn {
     thread_pool *pool = nullptr;
     int nw = 0;
     std::deque<JobRec> jobs;
+    bool flags[10] = {};
 
     static std::string tid() { return "t" + std::to_string(vshim::self_id); }
     void log(const std::string &s) { S().log_line(s); }
@@ -82,6 +86,8 @@ struct Scn {
     void on_cancel(int j) {
         jobs[j].cancelled++;
         log("cancel j" + std::to_string(j) + " " + tid());
+        // 'r': the cancelled party reacts by asking the pool what happened (one more critical section on the pool mutex)
+        if (pool && jobs[j].prims.find('r') != std::string::npos) (void)pool->is_stopped();
     }
     void on_future(int j) {
         try {
@@ -115,14 +121,29 @@ struct Scn {
         pool = nullptr;
         log("destroyed " + tid());
     }
+    void do_wait(int f) {
+        if (!flags[f]) {
+            S().log_op("flag-block f" + std::to_string(f));
+            S().block([this, f] { return flags[f]; });
+        }
+    }
     void do_prims(int j) {
         std::string prims = jobs[j].prims;   // copy: the deque may grow
-        for (char c : prims) {
+        for (std::size_t i = 0; i < prims.size(); i++) {
+            char c = prims[i];
             switch (c) {
                 case 's': do_stop(); break;
                 case 'f': submit("fn", ""); break;
                 case 'd': submit("det", ""); break;
                 case 'D': do_destroy(); break;
+                case 'w': if (i + 1 < prims.size()) do_wait((prims[++i] - '0') % 10); break;
+                case 'e':
+                    if (i + 1 < prims.size()) {
+                        int f = (prims[++i] - '0') % 10;
+                        flags[f] = true;
+                        log("flag-set f" + std::to_string(f) + " " + tid());
+                    }
+                    break;
                 default: break;
             }
         }
